@@ -395,6 +395,12 @@ func (reg *Reg) blobPutUploadFull(ctx context.Context, r ref.Ref, d descriptor.D
 	}
 	// special case for the empty blob
 	if d.Size == 0 && d.Digest == zeroDig {
+		// the body is not sent, verify the source is empty too
+		if rdr != nil {
+			if n, _ := io.ReadFull(rdr, make([]byte, 1)); n > 0 {
+				return fmt.Errorf("%w, expected %s, blob source is not empty", errs.ErrDigestMismatch, d.Digest.String())
+			}
+		}
 		bodyFunc = nil
 	}
 
